@@ -15,25 +15,31 @@ def generate(ck, prop, tier, seed, map_entries=2):
     one = {"MaxMapEntries": map_entries}
     mc = vlib.must_hold(vlib.tlc("ThriftWire", "MC_ThriftWire.cfg", workers=8, defines=one), "ThriftWire invariants (1 field)")
     ck.add_mc(mc, "MC_ThriftWire")
-    rnd = random.Random(seed)
-    types = sorted(rnd.sample(ALL_TYPES, 4 if thorough else 3))
-    if "BOOL" not in types:
-        types[0] = "BOOL"      # bools interact with deltas in the compact field header: always in
-    # always in: 1 and 70 (an id range wider than one bitmap word), 16 and 17 (a long-form header followed by a short delta)
-    ids = sorted(set(rnd.sample(ALL_IDS, 2 if thorough else 1) + [1, 16, 17, 70]))
-    multi = {"MaxMapEntries": map_entries, "MaxFields": 3 if thorough else 2, "GenTypes": tla_set(sorted(set(types))), "FieldIds": tla_set(sorted(set(ids))), "MaxId": 1}
-    mc2 = vlib.must_hold(vlib.tlc("ThriftWire", "MC_ThriftWire.cfg", workers=vlib.NCPU, defines=multi, tag="ThriftWire-mc2", timeout=3000),
-                         "ThriftWire invariants (multi-field)")
-    ck.add_mc(mc2, "MC_ThriftWire(multi)")
+    # multi-field layouts: exhaustive within a seeded subset of types and ids; the thorough tier takes four subsets
+    # (three fields at once: 1.6 M layouts x values for 4 types - measured - so more subsets of two fields instead)
     vec = vlib.vecpath(prop, "gen")
+    subsets = []
     with open(vec, "w") as sink:
         g1 = vlib.must_hold(vlib.tlc("ThriftWire", "Gen_ThriftWire.cfg", workers=8, sink=sink, defines=one), "generation (1 field)")
         ck.add_mc(g1, "Gen_ThriftWire(1 field, all types, all ids)")
         ck.notes["first_part"] = g1.vectors
-        g2 = vlib.must_hold(vlib.tlc("ThriftWire", "Gen_ThriftWire.cfg", workers=vlib.NCPU, sink=sink, defines=multi,
-                                     tag="ThriftWire-gen2", timeout=3000), "generation (multi-field)")
-        ck.add_mc(g2, "Gen_ThriftWire(%s fields, types %s, ids %s)" % (multi["MaxFields"], ",".join(sorted(set(types))), sorted(set(ids))))
-    ck.notes["subset"] = {"types": sorted(set(types)), "ids": sorted(set(ids))}
+        for round_ in range(4 if thorough else 1):
+            rnd = random.Random(seed + 1000 * round_)
+            types = sorted(rnd.sample(ALL_TYPES, 4 if thorough else 3))
+            if "BOOL" not in types:
+                types[0] = "BOOL"      # bools interact with deltas in the compact field header: always in
+            # always in: 1 and 70 (an id range wider than one bitmap word), 16 and 17 (a long-form header followed by a short delta)
+            ids = sorted(set(rnd.sample(ALL_IDS, 1) + [1, 16, 17, 70]))
+            multi = {"MaxMapEntries": map_entries, "MaxFields": 2, "GenTypes": tla_set(sorted(set(types))), "FieldIds": tla_set(sorted(set(ids))), "MaxId": 1}
+            if round_ == 0:
+                mc2 = vlib.must_hold(vlib.tlc("ThriftWire", "MC_ThriftWire.cfg", workers=vlib.NCPU, defines=multi, tag="ThriftWire-mc2", timeout=3000),
+                                     "ThriftWire invariants (multi-field)")
+                ck.add_mc(mc2, "MC_ThriftWire(multi)")
+            g2 = vlib.must_hold(vlib.tlc("ThriftWire", "Gen_ThriftWire.cfg", workers=vlib.NCPU, sink=sink, defines=multi,
+                                         tag="ThriftWire-gen2", timeout=3000), "generation (multi-field)")
+            ck.add_mc(g2, "Gen_ThriftWire(2 fields, types %s, ids %s)" % (",".join(sorted(set(types))), sorted(set(ids))))
+            subsets.append({"types": sorted(set(types)), "ids": sorted(set(ids))})
+    ck.notes["subsets"] = subsets
     return vec
 
 
